@@ -188,8 +188,8 @@ theorem pos_round (q lo hi : Rat) (hlo : (1 : Rat) / 100000000000000000000 ≤ l
   have habs := abs_le.mp herr
   exact ⟨_, e, by nlinarith [habs.1], by nlinarith [habs.2]⟩
 
-theorem pos_div {x y : F} {a b c d : Rat} (hx : Pos x a b) (hy : Pos y c d) (ha : (1 : Rat) / 1000000 ≤ a) (hb : b ≤ 10000000000000)
-    (hc : (1 : Rat) / 100 ≤ c) (hd : d ≤ 1000) : Pos (F.div b32 x y) (a / d / 2) (2 * (b / c)) := by
+theorem pos_div {x y : F} {a b c d : Rat} (hx : Pos x a b) (hy : Pos y c d) (ha : (1 : Rat) / 1000000 ≤ a) (hb : b ≤ 1000000000000000)
+    (hc : (1 : Rat) / 100 ≤ c) (hd : d ≤ 1000000) : Pos (F.div b32 x y) (a / d / 2) (2 * (b / c)) := by
   obtain ⟨p, rfl, p1, p2⟩ := hx
   obtain ⟨q, rfl, q1, q2⟩ := hy
   have hq0 : q ≠ 0 := by intro h; rw [h] at q1; linarith
